@@ -57,6 +57,11 @@ var c18Tmpls = []c18Tmpl{
 	// takes the macro call site (the template around it keeps its own position)
 	{"(defmacro mg () (let ((g (gensym))) (quasiquote (list (unquote g) 1)))) (progn (mg))", "call:mg"},
 	{"(defmacro mg2 () (let ((g (gensym))) (quasiquote (let ((a 1)) (list a (list (unquote g))))))) (list 1 (mg2))", "call:mg2"},
+	// a call that is refused on a later turn of an eliminated tail loop is located at ITS OWN expression
+	{"(defun f (n &optional acc) (if (= n 0) (f) (f (- n 1) 1))) (defun g (x) (+ 1 (f x))) (g 2)", "call:f"},
+	// calls built by the threading operators stand where the threaded form was written
+	{"(defun g (x) (thread-first x (+ 1) (car) (+ 3))) (g 2)", "call:car"},
+	{"(defun g (x) (thread-last x (+ 1) (nth 'y) (+ 3))) (list (g 2))", "call:nth"},
 	{"(defun thrower () (error 'a-err 3)) (handler-bind ((a-err (lambda (c &rest x) (ignore-errors (car 5)) (rethrow)))) (thrower))", "call:error"},
 }
 
